@@ -183,6 +183,7 @@ def run_schedule(task):
 
 
 BATCH = 60
+CONFIRM_CAP = 12
 
 
 def solo_task(task):
@@ -240,6 +241,7 @@ def explore(ctx, cfg, bound, solos, label, cap=None, window="all"):
     transitions = 0
     capped = False
     slow_runs = 0
+    unconfirmed_after_cap = 0
     leftovers = collections.Counter()
     while frontier:
         if cap is not None and executed + len(frontier) > cap:
@@ -272,7 +274,12 @@ def explore(ctx, cfg, bound, solos, label, cap=None, window="all"):
                 slow_runs += 1
             ctx.part.outcome('|'.join(','.join(outcome.short(o) if isinstance(o, tuple) and o and o[0] in 'VEXP' else str(o) for o in (r or ())) for r in vec)[:150])
             bad = first_bad(mix, vec, solos, tids)
-            if bad is not None:
+            if bad is not None and viol >= CONFIRM_CAP:
+                # enough confirmed witnesses for this configuration: further violating schedules are counted, not re-confirmed
+                # (each confirmation is two fresh forks; a broken tree yields thousands of violating schedules)
+                viol += 1
+                unconfirmed_after_cap += 1
+            elif bad is not None:
                 viol += 1
                 t, k, r = bad
                 # confirm from a pristine fork: the schedule alone, twice
@@ -310,7 +317,7 @@ def explore(ctx, cfg, bound, solos, label, cap=None, window="all"):
             nxt.extend(sched.children(res, len(prefix), bound, window=(None if window == "all" else (lambda i, pt: pt[4] == window))))
         frontier = nxt
         depth += 1
-    return dict(executed=executed, vectors=len(vectors), maxpoints=maxpoints, violations=viol, transitions=transitions, capped=capped, slow_executions=slow_runs, state_left_behind=dict(leftovers.most_common(12)))
+    return dict(executed=executed, vectors=len(vectors), maxpoints=maxpoints, violations=viol, violating_schedules_not_reconfirmed=unconfirmed_after_cap, transitions=transitions, capped=capped, slow_executions=slow_runs, state_left_behind=dict(leftovers.most_common(12)))
 
 
 def run(ctx):
